@@ -68,6 +68,8 @@ type Exec struct {
 	usedSpecFns map[string]bool
 	frames     []*frame
 	emitSites  []*emitSite
+	curLib     string
+	curLibPos  token.Pos
 	mayPanic   []string
 	panicsWhen string // evaluated in entry state ("" if none)
 	depth      int
